@@ -133,6 +133,9 @@ func c07fixed() []struct {
 		{"context.a.lessThan(decimal(\"1.0\"))", model.Ext("lessThan", model.Access(model.Var("context"), "a"), model.Ext("decimal", model.Lit(model.Str("1.0"))))},
 		{"principal.hasTag(\"a\") && principal.getTag(\"a\") == 1", model.Bin(model.OAnd, model.Bin(model.OHasTag, p, model.Lit(model.Str("a"))), model.Bin(model.OEq, model.Bin(model.OGetTag, p, model.Lit(model.Str("a"))), l(1)))},
 		{"[1].isEmpty()", model.Un(model.OIsEmpty, model.SetE(l(1)))},
+		// INT ::= ['0'-'9']+ : leading zeros are decimal digits, not a base prefix
+		{"010", l(10)}, {"0042 + 08", model.Bin(model.OAdd, l(42), l(8))}, {"09", l(9)}, {"00", l(0)}, {"-010", l(-10)}, {"-0", l(0)}, {"019 == 19", model.Bin(model.OEq, l(19), l(19))},
+		{"0009223372036854775807", l(9223372036854775807)}, {"-009223372036854775808", l(-9223372036854775808)},
 		{"1 < 2 == true", nil}, // chained relation: must be rejected (listed below too)
 	}
 }
@@ -147,6 +150,7 @@ var c07reject = []struct{ cat, expr string }{
 	{"method-as-function", "lessThan(decimal(\"1.0\"), decimal(\"2.0\"))"}, {"method-as-function", "isIpv4(ip(\"1.1.1.1\"))"}, {"method-as-function", "toDate(datetime(\"2020-01-01\"))"},
 	{"function-as-method", "\"1.0\".decimal()"}, {"function-as-method", "principal.ip()"}, {"function-as-method", "\"2020-01-01\".datetime()"},
 	{"unterminated", "\"abc"}, {"unterminated", "principal like \"a"}, {"unterminated", "U::\"a"},
+	{"malformed-number", "0x10"}, {"malformed-number", "0b1"}, {"malformed-number", "0o7"}, {"malformed-number", "1_000"}, {"malformed-number", "1e3"}, {"malformed-number", "1.5"}, {"malformed-number", "0009223372036854775808"},
 	{"integer-range", "9223372036854775808"}, {"integer-range", "-9223372036854775809"}, {"integer-range", "99999999999999999999"},
 	{"bad-escape", "\"\\q\""}, {"bad-escape", "\"\\u{110000}\""}, {"bad-escape", "\"\\u{d800}\""}, {"bad-escape", "\"\\x80\""}, {"bad-escape", "\"\\u{}\""}, {"bad-escape", "\"\\u{1234567}\""}, {"bad-escape", "\"\\*\""},
 	{"malformed-expression", "1 +"}, {"malformed-expression", ""}, {"malformed-expression", "(1"}, {"malformed-expression", "1)"}, {"malformed-expression", "[1, 2"}, {"malformed-expression", "{a 1}"},
